@@ -69,12 +69,14 @@ def rule_r1(chk):
     norm = next((n for n in ast.walk(fl) if isinstance(n, ast.Assign) and unparse(n.targets[0]) == "letter"), None)
 
     def decode(text):
-        """member the reader's Frequency.from_letter finds for text; None if it raises / finds nothing"""
+        """member the reader's Frequency.from_letter finds for text (finite evaluation on the members in definition order); None if it
+        raises / finds nothing"""
+        klass_ = [fin.FinObj(name=mname, value=fvals.get(mname)) for mname in members]
         try:
-            l2 = eval_str(norm.value, {params(fl)[1]: text})
-        except NotAString:
+            got = fin.run_function(fl, {params(fl)[0]: klass_, params(fl)[1]: text}, fin.STDLIB_FUNCS)
+        except (fin.NotFinite, fin.Raised, StopIteration, IndexError, TypeError, AttributeError):
             return None
-        return next((mname for mname in members if isinstance(l2, str) and l2 and mname.startswith(l2)), None)
+        return getattr(got, "name", None)
     for name in members:
         fp = params(gm)[0]
         try:
@@ -82,7 +84,7 @@ def rule_r1(chk):
         except NotAString as e:
             chk.undecided("C19-R1", f"databoxes[frequency mark {name}]", str(e), em.loc(gm))
             continue
-        if letter_expr is None or norm is None:
+        if letter_expr is None:
             chk.undecided("C19-R1", f"databoxes[frequency mark {name}]", "reader shape not recognised", im.loc(is_start))
             continue
         try:
@@ -99,9 +101,10 @@ def rule_r1(chk):
         ok = pref_ok and found == name and found_cell == name
         chk.ob("C19-R1", f"databoxes[frequency mark {name}]", ok,
                f"writer mark {mark!r}; reader prefix test {pref_ok}, letter {letter!r} -> {found}, whole cell -> {found_cell}", em.loc(gm))
-    src = squash(fl)
-    ok = "returnnext((xforxinklassifx.name.startswith(letter)))" in src
-    chk.ob("C19-R1", "dates.Frequency.from_letter", ok, "first member (definition order) whose name starts with the letter", dm.loc(fl))
+    probes = {"q": "QUARTERLY", "Q": "QUARTERLY", "__monthly__": "MONTHLY", "d": "DAILY", "_y": "YEARLY", "h": "HALFYEARLY", "i": "INTEGER"}
+    bad = next((f"from_letter({t!r}) finds {decode(t)}, expected {w}" for t, w in probes.items() if w in members and decode(t) != w), None)
+    chk.ob("C19-R1", "dates.Frequency.from_letter", bad is None, bad or "first member (definition order) whose name starts with the letter (underscores and case ignored)",
+           dm.loc(fl), sure=True)
     cf = [n for n in ast.walk(bi) if isinstance(n, ast.Assign) and unparse(n.targets[0]) == "current_frequency" and isinstance(n.value, ast.Call)]
     ok = bool(cf) and squash(cf[0].value) == "Frequency.from_letter(cell)"
     chk.ob("C19-R1", "databoxes._imports._block_iterator[frequency of block]", ok if cf else None, "the block's frequency is decoded from its mark cell", im.loc(bi))
@@ -177,7 +180,7 @@ def rule_r1(chk):
     ok = "current_start=column+1" in src and "names=name_row[current_start:column]" in src and "num_columns=column-current_start" in src and "name_row+=['__']" in src
     chk.ob("C19-R1", "databoxes._imports._block_iterator[column range]", ok, "block = cells after the mark up to the next mark (or the sentinel)", im.loc(bi))
     ra = im.func("_read_array_for_block")
-    from .. import fin
+    pass
     from ..core import inline_locals
     gcalls = [c for c in ast.walk(ra) if isinstance(c, ast.Call) and (dotted(c.func) or "").endswith("genfromtxt")]
     ok, detail = None, "genfromtxt call not recognised"
@@ -270,13 +273,24 @@ def rule_r2(chk):
         and src.index(f"{newname}.rename(") < src.index(f"{newname}.keep(")
     chk.ob("C19-R2", "databoxes.main.Databox.copy[rename then keep on the copy]", ok, "rename source->target, then keep the targets, both on the copy", m.loc(cp))
     orf = meths["__or__"]
-    first = strip_docstring(orf.body)[0]
-    ok = isinstance(first, ast.Assign) and squash(first.value) in ("_co.deepcopy(self)", "copy.deepcopy(self)") and f"{unparse(first.targets[0])}.update({params(orf)[1]})" in squash(orf)
-    chk.ob("C19-R2", "databoxes.main.Databox.__or__", ok, "merges into a deep copy of the left operand", m.loc(orf))
+    # by finite evaluation: the result is a deep copy of the left operand (deepcopy(self), or self.copy() without arguments, which
+    # C19-R2 above shows to be one) updated once with the right operand; neither operand is updated itself
+    log = []
+    clone = fin.FinObj(update=lambda *a_, **k_: log.append(("clone.update",) + a_))
+    left = fin.FinObj(update=lambda *a_, **k_: log.append(("self.update",) + a_),
+                      copy=lambda *a_, **k_: clone if not a_ and not k_ else fin.FinObj(update=lambda *b_, **c_: log.append(("partial copy updated",))))
+    try:
+        got = fin.run_function(orf, {params(orf)[0]: left, params(orf)[1]: "OTHER"},
+                               {"_co.deepcopy": lambda x_: clone if x_ is left else x_, "copy.deepcopy": lambda x_: clone if x_ is left else x_, "_cp.deepcopy": lambda x_: clone if x_ is left else x_})
+        ok = got is clone and log == [("clone.update", "OTHER")]
+        chk.ob("C19-R2", "databoxes.main.Databox.__or__", ok, "merges into a deep copy of the left operand" if ok else
+               f"returns {'the copy' if got is clone else 'something else than the deep copy'} after {log}; expected the deep copy of the left operand updated once with the right one", m.loc(orf), sure=True)
+    except (fin.NotFinite, fin.Raised, TypeError, AttributeError) as ex:
+        chk.undecided("C19-R2", "databoxes.main.Databox.__or__", f"not finitely evaluable: {type(ex).__name__}: {ex}", m.loc(orf))
     # resolver: non-strict filtering keeps only names present; callable/str/None forms
     rs = meths["_resolve_source_target_names"]
     chk.saw(m, "Databox._resolve_source_target_names")
-    from .. import fin
+    pass
     ctx = ("a", "b", "c", "d")
     up = lambda n: n.upper()
     cases = [  # (source, target, strict) -> (sources, targets)
@@ -472,7 +486,7 @@ def rule_r6(chk, rid="C19-R6"):
     chk.rule(rid, "what to_csv_file reports as exported is what it writes: the export blocks, evaluated finitely for frequency tables that include a "
              "frequency whose span is empty (series without observations are written as a header-only block), carry exactly the names of "
              "info['names_exported'], each with the periods of its frequency", floor=1, shape_independent=True)
-    from .. import fin
+    pass
     m = chk.repo.mod(EXP)
     f = m.func("Inlay.to_csv_file")
     chk.saw(m, "Inlay.to_csv_file")
